@@ -8,6 +8,11 @@ extern "C" fn literal_new(label: VarLabel, polarity: bool) -> Literal {
 
 #[no_mangle]
 unsafe extern "C" fn var_order_new(order: *const VarLabel, len: usize) -> *mut VarOrder {
-    let order = slice::from_raw_parts(order, len);
+    // `(NULL, 0)` is the usual C spelling of an empty array; `from_raw_parts` rejects NULL
+    let order: &[VarLabel] = if order.is_null() || len == 0 {
+        &[]
+    } else {
+        slice::from_raw_parts(order, len)
+    };
     Box::into_raw(Box::new(VarOrder::new(order)))
 }
